@@ -485,7 +485,11 @@ def c15_r4(ctx):
             continue
         ctx.inst("decoder called from %s" % g.id, cs.where)
         ao = g.origins_of_operand(cs.args[0])
-        if ao and all(o[0][0] == "param" and len(o) == 1 for o in ao):
+        def own_string(o):
+            # the parameter itself, or one piece of it as `split` hands it out (the decoder inlined
+            # into a caller that walks the lines of a listing)
+            return o[0][0] == "param" and all(st == ("iter", "split") or st[0] == "next" or st == ("variant", "Some") or st == ("field", 0) for st in o[1:])
+        if ao and all(own_string(o) for o in ao):
             ctx.ok()
         else:
             ctx.viol((g.id, "string-altered-before-decoding"), "the string handed to the decoder is not the caller's string itself (derives from %s): strings that are not a 43-character encoding can be accepted" % sorted(map(fmt_origin, ao)), cs.where)
@@ -1198,6 +1202,12 @@ def c19_r6(ctx):
         r = f.reach([x for (_, x) in no])
         nt = [bb for (bb, idx, rv, pl) in f.constructs("cache::OpenError", "NotThere") if bb in r]
         esc = f.reach([x for (_, x) in no], avoid_blocks=nt)
+        if (not nt or any(b in esc for b in f.return_blocks)) and \
+                any(h.split("::{closure")[0] == f.id for (h, w) in getattr(ctx.P.facts, "inlined", [])):
+            # the answer is computed in a helper as a value of its own and converted afterwards
+            # (`find_entry(..)?` with `impl From<Absent> for OpenError`): which arm of the conversion
+            # belongs to which outcome of the test is not followed
+            raise AnalysisError("idiom not recognised: in %s the outcome of the is_file test reaches the answer through a merged helper / conversion" % f.id)
         if not nt or any(b in esc for b in f.return_blocks):
             ctx.viol((f.id, "not-a-file-not-notthere"), "an entry that is not a regular file is not answered with NotThere", op.where)
         else:
@@ -1408,6 +1418,10 @@ def c16_r7(ctx):
     for r in rn:
         ok_e |= f.edges_of_call_variant(r, "Ok")
     bad = [(bb, idx) for (bb, idx, rv, pl) in f.constructs("std::result::Result", "Ok") if pl["local"] == 0 and not f.dominated_by_edges(bb, ok_e)]
+    if bad and any(h.split("::{closure")[0] == f.id for (h, w) in getattr(ctx.P.facts, "inlined", [])):
+        # the write protocol lives in a merged helper whose result is converted on the way out:
+        # which Ok belongs to the rename's success is not followed through the merge
+        raise AnalysisError("idiom not recognised: %s saves the table through a merged helper whose result is re-wrapped" % f.id)
     if bad:
         ctx.viol((f.id, "table-save-skipped"), "the table can be reported as saved without having been written: the file of an earlier invocation stays, and the next one reads back states this one no longer held", f.where(bad[0][0], bad[0][1]))
     else:
